@@ -1,6 +1,7 @@
 // Command lockyield writes a copy of a goja source tree in which every statement `x.Lock()` / `x.RLock()` is preceded by
 // a call to verifyield.Yield() and followed by Acquired(), every release is followed by Released(), every statement that
-// contains an atomic store / swap / compare-and-swap / add is preceded by Yield(), and every runtime.Gosched() by Spin()
+// contains an atomic store / swap / compare-and-swap / add is preceded by Yield(), every statement that contains an
+// atomic load by Load(), and every runtime.Gosched() by Spin()
 // (a new leaf package of the copy holding `var Hook func(kind int)`). The copy is semantically the
 // same program (Yield is a no-op unless a simulator sets the hook); in the simulator the hook is a scheduling point, so
 // that the seeded scheduler can also interleave goroutines BETWEEN two critical sections of one operation (check-then-act
@@ -29,7 +30,7 @@ package verifyield
 
 // Hook, when set, is called around every synchronisation operation of the instrumented tree:
 // 0 before a lock acquisition or an atomic read-modify-write/store, 1 after an acquisition, 2 after a release,
-// 3 at a runtime.Gosched() (the caller is waiting for another goroutine to make progress).
+// 3 at a runtime.Gosched() (the caller is waiting for another goroutine to make progress), 4 before an atomic load.
 var Hook func(kind int)
 
 func Yield() {
@@ -53,6 +54,12 @@ func Released() {
 func Spin() {
 	if h := Hook; h != nil {
 		h(3)
+	}
+}
+
+func Load() {
+	if h := Hook; h != nil {
+		h(4)
 	}
 }
 `
@@ -93,6 +100,18 @@ func isAtomicMutation(call *ast.CallExpr) bool {
 		return false
 	}
 	return n == "Store" || n == "Swap" || n == "CompareAndSwap"
+}
+
+// isAtomicLoad: atomic.LoadX(&v) of package sync/atomic, or a method call x.Load() without arguments.
+func isAtomicLoad(call *ast.CallExpr) bool {
+	sel, ok := call.Fun.(*ast.SelectorExpr)
+	if !ok {
+		return false
+	}
+	if id, ok := sel.X.(*ast.Ident); ok && id.Name == "atomic" {
+		return strings.HasPrefix(sel.Sel.Name, "Load")
+	}
+	return sel.Sel.Name == "Load" && len(call.Args) == 0
 }
 
 func isGosched(call *ast.CallExpr) bool {
@@ -194,6 +213,9 @@ func rewriteList(list []ast.Stmt, n *int) []ast.Stmt {
 			*n++
 		} else if containsCall(s, isAtomicMutation) {
 			out = append(out, &ast.ExprStmt{X: hookCall("Yield")})
+			*n++
+		} else if containsCall(s, isAtomicLoad) {
+			out = append(out, &ast.ExprStmt{X: hookCall("Load")})
 			*n++
 		}
 		out = append(out, s)
